@@ -228,6 +228,11 @@ func Kevent(kqfd int, changes, events []Kevent_t, timeout *Timespec) (int, error
 			kq.dequeue(kn)
 		case c.Flags&EV_ADD != 0:
 			kn, ok := kq.notes[key]
+			if !ok && c.Filter == EVFILT_VNODE && failAdd > 0 {
+				if failAdd--; failAdd == 0 {
+					return -1, syscall.ENOMEM // the injected fault: no memory for a new knote
+				}
+			}
 			if !ok {
 				kn = &knote{ident: int(c.Ident), filter: c.Filter}
 				kq.notes[key] = kn
@@ -279,20 +284,45 @@ func Kevent(kqfd int, changes, events []Kevent_t, timeout *Timespec) (int, error
 	return n, nil
 }
 
+// SimFailAdd makes the n-th registration of a new vnode knote from now on fail with ENOMEM (once).
+var failAdd int
+
+func SimFailAdd(n int) {
+	mu.Lock()
+	failAdd = n
+	mu.Unlock()
+}
+
+// SimFailLeft: 0 once the injected failure has happened (or none is armed).
+func SimFailLeft() int {
+	mu.Lock()
+	defer mu.Unlock()
+	return failAdd
+}
+
 // SimHold / SimRelease bracket the notes of ONE file system operation: the kernel raises them inside the
 // system call, so a reader cannot run between them.
-var held bool
+var (
+	held  bool
+	holds int // SimHold nests: a whole burst of operations can be made "faster than the reader wakes up"
+)
 
 func SimHold() {
 	mu.Lock()
+	holds++
 	held = true
 	mu.Unlock()
 }
 
 func SimRelease() {
 	mu.Lock()
-	held = false
-	cond.Broadcast()
+	if holds > 0 {
+		holds--
+	}
+	if holds == 0 {
+		held = false
+		cond.Broadcast()
+	}
 	mu.Unlock()
 }
 
